@@ -6,7 +6,7 @@ from fvsym.props.c03 import flat, lookup, stored
 BOUNDS = {
     "quick": "1-level: destination 0..2 stored elements (tensor-owned), source 0..2, every coordinate/value symbolic, loop body = symbolic selector per "
              "offered reference in {leave, <<= w, += w} with symbolic w (w = 0 is 'set back to the default'); 2-level nested populate on destination "
-             "[], [1], [1,1] x source [1], [1,1], [2]; source rank declared 'U' over an active range of span <= 3",
+             "[], [1], [1,1] x source [1], [1,1], [2]; source rank declared 'U' over an active range of span <= 3; the same populate object traversed twice (dry pass, then writing pass); both source ranks 'U' and source fibers that store nothing; pinned-destination counterparts of the slow nested obligations",
     "thorough": "1-level up to 3x3; 2-level destination [2,1] and source [2,1]; 3-level nested populate [[1]] x [[1]]",
 }
 OUTSIDE = "bodies that mutate z other than through the offered reference; start_pos other than None; floats"
